@@ -312,6 +312,8 @@ func execCase(t *testing.T, script []string, gen *hx.Rand) (*caseResult, []strin
 		return runComp(script), script
 	case "exist":
 		return runExist(script), script
+	case "stack":
+		return runStack(script), script
 	case "dedup":
 		return runDedup(t, script, gen)
 	case "limit", "queue":
@@ -346,7 +348,7 @@ func TestC17(t *testing.T) {
 	}
 	defer model.Close()
 	run.HasModel = model != nil
-	run.SetRule("five kinds of cases: composite histories (readcaching/readfallback over two recording backends with fault scripts, " +
+	run.SetRule("six kinds of cases: existence caches over stacks built by NewBlobAccessFromConfiguration (read_fallback, read_caching, mirrored, local over flat / hierarchical local stores, same hash under several instance names, compared with the same stack without the cache); composite histories (readcaching/readfallback over two recording backends with fault scripts, " +
 		"replicators noop/local/dedup/limit nestings), existence-cache histories (size 1..3, clock around expiry boundaries), and " +
 		"synctest schedules of the deduplicating, concurrency-limiting and queued replicators with gated sink/base calls, overlapping " +
 		"digest sets, failures and cancellations; non-trivial: >= 3 operations resp. >= 2 callers and >= 6 schedule steps; distinct by script hash")
@@ -425,6 +427,10 @@ func TestC17(t *testing.T) {
 			handle(fmt.Sprintf("seed%d/exist%d", run.Seed, i), genExist(r), nil)
 		}
 	}
+	nStack := run.Scale(500, 8000)
+	for i := 0; i < nStack && run.Findings() < 20; i++ {
+		handle(fmt.Sprintf("seed%d/stack%d", run.Seed, i), genStack(hx.NewRand(run.Seed, "C17stack", i)), nil)
+	}
 	nConc := run.Scale(3000, 90000)
 	for i := 0; i < nConc && run.Findings() < 20; i++ {
 		r := hx.NewRand(run.Seed, "C17conc", i)
@@ -480,6 +486,9 @@ func fixedCases() [][]string {
 		{"dedup-entry-points", "#cfg dedup", "d.callc 0 1", "d.calls 0 1", "d.call 0 1 2", "d.sink 0 auto", "d.copy 0 ok", "d.sink 2 auto", "d.copy 2 ok"},
 		{"queue-cached", "#cfg queue 2 5", "q.clock 3", "q.call 0 m 1 2", "q.call 0 s 2", "q.base 0 ok", "q.clock 8", "q.call 0 c 1", "q.clock 9", "q.call 0 m 1 2", "q.base 1 ok", "q.base 3 ok"},
 		{"exist-size-one", "#cfg exist 1 10", "e.set 1", "e.set 2", "e.fm 5 5 1", "e.del 1", "e.fm 15 15 1", "e.fm 16 16 1", "e.fm 17 17 2", "e.fm 18 18 1 2"},
+		{"stack-fallback-flat-over-hierarchical", "#cfg stack fallback 0 1 100 noop", "s.seed s 1 0", "s.fm 1 0 1", "s.fm 1 0", "s.fm 2 0", "s.get 2 0", "s.fm 3 0"},
+		{"stack-mirrored-hierarchical-and-flat", "#cfg stack mirrored 1 0 2 noop", "s.seed p 1 0", "s.fm 1 0", "s.fm 2 0", "s.put 2 1", "s.fm 1 1", "s.fm 2 1"},
+		{"stack-caching-hierarchical-slow", "#cfg stack caching 0 1 3 local", "s.seed s 1 0", "s.get 1 0", "s.fm 1 0", "s.fm 2 0", "s.fm 3 0"},
 		{"comp-empty-blob", "#cfg comp cache dedup.local", "c.set src 0 5", "c.get 0", "c.del sink 0", "c.ffm 0 1", "c.del sink 0", "c.repl 0 1"},
 		{"comp-dedup-local", "#cfg comp cache dedup.local", "c.set src 1 11", "c.get 1", "c.get 2", "c.fault sink 14 1", "c.get 1", "c.ffm 1 2 3"},
 	}
